@@ -93,6 +93,40 @@ def to_sel(s, n):
     return s
 
 
+def check_nodes(tree):
+    """the well-typedness predicate over every node of one tree"""
+    out = []
+    for node in tree.subtree:
+        path = node.path
+        ds = node.to_dataset(inherit=False)
+        for k, v in ds.attrs.items():
+            if not plain(v):
+                out.append(harness.disc("opaque-attribute", f"{path}@{k}", "plain scalar/list", f"{type(v).__name__}: {v!r}"[:120]))
+        for name, var in ds.variables.items():
+            where = f"{path}#{name}"
+            for k, v in var.attrs.items():
+                if not plain(v):
+                    out.append(harness.disc("opaque-attribute", f"{where}@{k}", "plain", f"{type(v).__name__}: {v!r}"[:120]))
+            dtype = var.dtype
+            if not isinstance(dtype, np.dtype):
+                out.append(harness.disc("dtype-not-numpy", where, "np.dtype instance", f"{type(dtype).__name__} {dtype!r}"))
+            elif dtype.kind not in OK_KINDS:
+                out.append(harness.disc("dtype-opaque", where, "kind in biufcMmUT", f"{dtype} (kind {dtype.kind})"))
+            if not isinstance(var.shape, tuple):
+                out.append(harness.disc("shape-not-tuple", where, "tuple", f"{type(var.shape).__name__} {var.shape!r}"))
+            values, err = harness.guard(lambda v=var: np.asarray(v.values))
+            if err is not None:
+                out.append(harness.disc("exception", where + ".values", "values", harness.exc_text(err)))
+                continue
+            if tuple(values.shape) != tuple(var.shape):
+                out.append(harness.disc("shape-mismatch", where, tuple(var.shape), values.shape))
+            if isinstance(dtype, np.dtype) and values.dtype.newbyteorder("=") != dtype.newbyteorder("="):
+                out.append(harness.disc("dtype-mismatch", where, dtype, values.dtype))
+        _, err = harness.guard(lambda d=ds: d.nbytes)
+        if err is not None:
+            out.append(harness.disc("nbytes-raises", path, "a size", harness.exc_text(err)))
+    return out
+
 BLANKABLE = {("Odi", "SiteDateTime"), ("Pds", "MapDirection"), ("Pds", "OrbitDataPrecision"), ("Pds", "AttitudeDataPrecision"),
              ("Pdi", "ProductFormat"), ("Ach", "TimeCheck"), ("Rad", "PracticeResultCode"), ("Lbi", "Satellite"), ("Lbi", "ObservationDate")}
 
@@ -114,7 +148,7 @@ def run_case(case):
     with harness.Materialised(files, "local" if via_cache else "memory") as prod:
         if via_cache:
             # the tree assembled from index caches (written by a first open) is held to the same predicate
-            _, err = harness.guard(harness.open_tree, prod.url, records_per_chunk=1024, use_cache=False, create_cache=True)
+            creating, err = harness.guard(harness.open_tree, prod.url, records_per_chunk=1024, use_cache=False, create_cache=True)
             tree, err2 = harness.guard(harness.open_tree, prod.url, records_per_chunk=case["rpc"], use_cache=True)
             err = err or err2
         else:
@@ -123,35 +157,12 @@ def run_case(case):
             common.drop_user_cache(prod.url, info["names"]["sar_imagery"])
         if err is not None:
             return [harness.disc("exception", "open_alos2", "a tree", harness.exc_text(err))]
-        for node in tree.subtree:
-            path = node.path
-            ds = node.to_dataset(inherit=False)
-            for k, v in ds.attrs.items():
-                if not plain(v):
-                    out.append(harness.disc("opaque-attribute", f"{path}@{k}", "plain scalar/list", f"{type(v).__name__}: {v!r}"[:120]))
-            for name, var in ds.variables.items():
-                where = f"{path}#{name}"
-                for k, v in var.attrs.items():
-                    if not plain(v):
-                        out.append(harness.disc("opaque-attribute", f"{where}@{k}", "plain", f"{type(v).__name__}: {v!r}"[:120]))
-                dtype = var.dtype
-                if not isinstance(dtype, np.dtype):
-                    out.append(harness.disc("dtype-not-numpy", where, "np.dtype instance", f"{type(dtype).__name__} {dtype!r}"))
-                elif dtype.kind not in OK_KINDS:
-                    out.append(harness.disc("dtype-opaque", where, "kind in biufcMmUT", f"{dtype} (kind {dtype.kind})"))
-                if not isinstance(var.shape, tuple):
-                    out.append(harness.disc("shape-not-tuple", where, "tuple", f"{type(var.shape).__name__} {var.shape!r}"))
-                values, err = harness.guard(lambda v=var: np.asarray(v.values))
-                if err is not None:
-                    out.append(harness.disc("exception", where + ".values", "values", harness.exc_text(err)))
-                    continue
-                if tuple(values.shape) != tuple(var.shape):
-                    out.append(harness.disc("shape-mismatch", where, tuple(var.shape), values.shape))
-                if isinstance(dtype, np.dtype) and values.dtype.newbyteorder("=") != dtype.newbyteorder("="):
-                    out.append(harness.disc("dtype-mismatch", where, dtype, values.dtype))
-            _, err = harness.guard(lambda d=ds: d.nbytes)
-            if err is not None:
-                out.append(harness.disc("nbytes-raises", path, "a size", harness.exc_text(err)))
+        out.extend(check_nodes(tree))
+        if via_cache and creating is not None:
+            # the tree returned by the open that wrote the caches is a tree like any other
+            for d in check_nodes(creating):
+                d.setdefault("context", {})["tree"] = "returned by the cache-creating open"
+                out.append(d)
         # re-open for the repr checks (values above may have been cached by xarray)
         tree2, err = harness.guard(harness.open_tree, prod.url, records_per_chunk=case["rpc"], use_cache=False)
         if err is None:
